@@ -56,8 +56,9 @@ def option_sets(pid):
     for sync in ([True] if pid == "C09" else [True, False]):
         out += [
             {"mem": "skiplist", "sync": sync, "memsize": 420},                      # rotation inside batches
-            {"mem": "art", "sync": sync, "vlog": True, "buckets": 1, "vlogsize": 1024, "vallen": 90, "memsize": 600},
-            {"mem": "skiplist", "sync": sync, "vlog": True, "buckets": 3, "vlogsize": 1024, "vallen": 90},
+            # value-log files of 300 B: a new file every 2-3 records, so rotation, head persistence and GC all happen
+            {"mem": "art", "sync": sync, "vlog": True, "buckets": 1, "vlogsize": 300, "vallen": 90, "memsize": 600},
+            {"mem": "skiplist", "sync": sync, "vlog": True, "buckets": 3, "vlogsize": 300, "vallen": 90},
             {"mem": "art", "sync": sync},
         ]
     return out
@@ -156,6 +157,22 @@ def classify(wl, pt, pid):
     return None
 
 
+def gc_inversion(wl, pt, pev):
+    """Witness of finding C11-gc-version-inversion (root cause C02-version-inversion): transactional data
+    (every version kept) stored in the value log; after GC a key shows a value that an EARLIER accepted
+    transaction wrote to it, i.e. an older version re-inserted by GC shadows the newest one."""
+    if wl.get("mode") != "txn" or not wl["cfg"].get("vlog"):
+        return False
+    rec = (pt["rec"] or {}).get("dump1") or {}
+    older = {}
+    for e in pt["events"]:
+        if e["e"] == "Accept":
+            for w in e["w"]:
+                older.setdefault(w["k"], set()).add(w["v"] if w["v"] != "" else "NOTFOUND")
+    diff = [k for k in wl["keys"] if pev["dump"].get(k) != rec.get(k)]
+    return bool(diff) and all(pev["dump"].get(k) in older.get(k, set()) for k in diff)
+
+
 def run(ctx):
     pid, quick = ctx.pid, ctx.tier == "quick"
     m1 = []
@@ -242,6 +259,8 @@ def run(ctx):
     for (ti, line, pev, want) in rejected:
         wl, pt = results[ti]
         cls = classify(wl, pt, pid) if pev["e"] == "Recovered" and pev.get("open") else None
+        if pev["e"] == "Post" and gc_inversion(wl, pt, pev):
+            cls = "gc-version-inversion"
         fid = "%s-%s" % (pid, cls) if cls else None
         if fid and fid in known:
             if fid not in hits:
